@@ -478,7 +478,7 @@ pub fn run_worker<P: Prop>(a: WorkArgs) -> anyhow::Result<()> {
                 writeln!(log, "{line}")?;
             }
         }
-        if hbuf.len() >= (1 << 16) - 16 {
+        if hbuf.len() >= 9 * 512 {
             hashes.write_all(&hbuf)?;
             hbuf.clear();
         }
